@@ -571,6 +571,11 @@ def main():
     spec.loader.exec_module(mod)
     P = mod.PROPERTY
     units = [u for u in mod.UNITS if tier in u.tiers]
+    # the per-unit timeouts in props/ are development values (a few times the quiet-machine run time); a registered run may share
+    # the machine with other checks, and a timeout means "undecided" (exit 2), so registered runs get a generous margin
+    if not os.environ.get("VERIF_DEV_TIMEOUTS"):
+        for u in units:
+            u["timeout"] = max(900, 3 * u["timeout"])
     if a.unit:
         want = set(a.unit.split(","))
         units = [u for u in mod.UNITS if u.name in want]
